@@ -155,12 +155,12 @@ impl<'a, 'b> SGen<'a, 'b> {
     fn is_visible(&self, name: &str) -> bool {
         self.scopes.iter().any(|s| s.iter().any(|(n, _)| n == name))
             || ["pi", "π", "euler", "ℇ", "tau", "τ", "U"].contains(&name)
-            || (self.stdgates && STD1.iter().any(|(n, _, _)| *n == name))
+            || (self.stdgates && crate::semcheck::STD_GATES.iter().any(|(n, _, _)| *n == name))
     }
 
     fn in_current(&self, name: &str) -> bool {
         self.scopes.last().unwrap().iter().any(|(n, _)| n == name)
-            || (self.scopes.len() == 1 && (["pi", "π", "euler", "ℇ", "tau", "τ", "U"].contains(&name) || (self.stdgates && STD1.iter().any(|(n, _, _)| *n == name))))
+            || (self.scopes.len() == 1 && (["pi", "π", "euler", "ℇ", "tau", "τ", "U"].contains(&name) || (self.stdgates && crate::semcheck::STD_GATES.iter().any(|(n, _, _)| *n == name))))
     }
 
     fn bind(&mut self, name: &str, k: EKind) {
@@ -310,6 +310,16 @@ impl<'a, 'b> SGen<'a, 'b> {
         }
     }
 
+    /// A single qubit (never a register or an indexed register: the analyser types `q[i]` as
+    /// the whole register, a listed known finding).
+    fn scalar_qubit(&mut self) -> Operand {
+        let qs = self.visible(|k| matches!(k, EKind::Qubit));
+        if qs.is_empty() {
+            return Operand::Hw(format!("${}", self.src.below(6)));
+        }
+        Operand::Id(qs[self.src.below(qs.len())].0.clone())
+    }
+
     fn numeric_expr(&mut self, depth: usize) -> Expr {
         let t = [STy::Int(None), STy::Float(None), STy::Int(Some(32)), STy::UInt(None)][self.src.below(4)].clone();
         self.expr_of(&t, depth)
@@ -412,10 +422,7 @@ impl<'a, 'b> SGen<'a, 'b> {
                 // no literal class is castable to angle: use an explicit cast
                 Expr::Cast(sty_to_ty(t), bx(Expr::Float("0.5".into())))
             }
-            STy::Bit => {
-                let o = self.qubit_operand();
-                Expr::Measure(o)
-            }
+            STy::Bit => Expr::Measure(self.scalar_qubit()),
             _ => {
                 let _ = depth;
                 Expr::Cast(sty_to_ty(t), bx(lit_int(1)))
@@ -450,7 +457,7 @@ impl<'a, 'b> SGen<'a, 'b> {
         let konst = self.src.chance(1, 5) && !matches!(ty, STy::Bit | STy::Angle(_));
         let init = if konst || self.src.chance(3, 5) {
             match &ty {
-                STy::Bit if self.src.chance(2, 3) => Some(Expr::Measure(self.qubit_operand())),
+                STy::Bit if self.src.chance(2, 3) => Some(Expr::Measure(self.scalar_qubit())),
                 _ => Some(self.expr_of(&ty, 0)),
             }
         } else {
@@ -482,11 +489,14 @@ impl<'a, 'b> SGen<'a, 'b> {
         };
         let name = if self.fault() && !self.p.usage { self.undeclared() } else { name };
         let mut value = match &ty {
-            STy::Bit if self.src.bool() => Expr::Measure(self.qubit_operand()),
+            STy::Bit if self.src.bool() => Expr::Measure(self.scalar_qubit()),
             // integer-literal assignments are typed by a separate path: use variables/casts here
             _ => {
                 let e = self.expr_of(&ty, 1);
-                if self.p.typed_exact && matches!(strip(&e), Expr::Int(_) | Expr::Un(..)) {
+                // with exact typing, literal values are only assigned where the assignment path
+                // accepts them without narrowing (bool, duration, float without width)
+                let literal = matches!(strip(&e), Expr::Int(_) | Expr::Float(_) | Expr::Un(..) | Expr::Imag(..) | Expr::BitStr(_));
+                if self.p.typed_exact && literal && !matches!(ty, STy::Float(None)) {
                     self.var_or_nonliteral(&ty)
                 } else {
                     e
@@ -504,9 +514,9 @@ impl<'a, 'b> SGen<'a, 'b> {
             return v;
         }
         match t {
-            STy::Duration | STy::BitReg(_) | STy::Bool => self.literal_of(t).unwrap(),
-            STy::Float(_) | STy::Complex(_) => Expr::Float("1.5".into()),
-            STy::Bit => Expr::Measure(self.qubit_operand()),
+            STy::Duration | STy::Bool => self.literal_of(t).unwrap(),
+            STy::Float(None) => Expr::Float("1.5".into()),
+            STy::Bit => Expr::Measure(self.scalar_qubit()),
             _ => Expr::Cast(sty_to_ty(t), bx(Expr::Int("1".into()))),
         }
     }
@@ -740,7 +750,7 @@ impl<'a, 'b> SGen<'a, 'b> {
             let mut b: Vec<Stmt> = (0..n).map(|_| g.stmt(depth + 1)).collect();
             if let Some(r) = &ret2 {
                 let e = match r {
-                    STy::Bit => Expr::Measure(g.qubit_operand()),
+                    STy::Bit => Expr::Measure(g.scalar_qubit()),
                     _ => g.expr_of_inner(r, 1),
                 };
                 b.push(Stmt::Return(Some(e)));
